@@ -50,6 +50,22 @@ def build_obs(tier, tables=None):
     # (the compound calls with the failing allocation as ONE symbolic variable give no verdict within 1500 s
     #  each - measured; they stay enumerated per k in both tiers)
     obs = alloc_obs("c18")
+    # the path resolver copies every path component and every quoted qualifier: the k-th copy failing (concrete
+    # k) on shaped symbolic paths must yield not-found / failure and change nothing (path_res.c -DFAIL_AT=k)
+    import copy
+    import props.C11 as C11
+    base = {o.key: o for o in C11.build_obs("thorough")}
+    sel = [("path-fn2-NIN", (1, 2)), ("path-fn2-NINEQ", (2, 3)), ("path-fn1-NININ", (2,)), ("path-fn1-NEQIN", (2,)), ("path-fn2-NEqqq", (2,))]
+    if tier != "quick":
+        sel += [("path-fn1-NIN", (1,)), ("path-fn1-NEqqqIN", (2, 3)), ("path-fn2-NININ", (2, 3)), ("path-fn2-NEQINEQ", (2, 3, 4))]
+    for key, ks in sel:
+        for k in ks:
+            o = copy.deepcopy(base[key])
+            o.key = "c18-%s-fail%d" % (key, k)
+            o.defs = o.defs + ["-DFAIL_AT=%d" % k]
+            o.must_reach = ("end of harness", "allocation failed")
+            o.params = dict(o.params, failing_string_copy=k)
+            obs.append(o)
     return obs
 
 
